@@ -438,7 +438,7 @@ fn run_threads(ctx: &Ctx, rep: &mut Report, forced: bool, round: u64) -> bool {
                 match op % 5 {
                     0 | 1 => {
                         stream.seek(SeekFrom::End(0))?;
-                        let add = 1 + (op as usize * 37) % 900;
+                        let add = if op % 7 == 0 { 5000 + (op as usize * 911) % 60000 } else { 1 + (op as usize * 37) % 900 };
                         stream.write_all(&vec![7u8; add])?;
                         len_now += add as u64;
                     }
